@@ -193,15 +193,13 @@ contract(F + "CorpusShufflingTool.splits_shuffle",
                 ("before", "to_split = ...", "UP = Us(continuum)")],
          serves={"C19"})
 
-# ---- the two perturbations that stay outside the encoding (numpy statistics / transition matrices): ASSUMED set-level contracts,
-#      exercised by the bounded oracle of corpus_shuffle; what the composition below needs of them
+# ---- the perturbation that stays outside the encoding (transition matrices): an ASSUMED set-level contract, exercised by the bounded
+#      oracle of corpus_shuffle; what the composition below needs of it.  (false_pos_shuffle is proved: contracts/catw.py)
 NONEMPTY_ALL = "forall([(a, Real)], implies(Ann(continuum)[a], exists([(u, Unit)], Us(continuum)[a][u])))"
 for _name, _extra, _note in (
-        ("false_pos_shuffle", [cl("forall([(a, Real), (u, Unit)], implies(old(Us(continuum))[a][u], Us(continuum)[a][u]))", "C19", name="K4-only-adds-units")],
-         "false positives only add units (labels drawn among the reference's categories)"),
         ("category_shuffle", [cl("forall([(a, Real), (v, Unit)], implies(Us(continuum)[a][v], exists([(u, Unit)], old(Us(continuum))[a][u] and "
                                  "u.s == v.s and u.e == v.e)))", "C19", name="K4-keeps-all-segments")],
-         "category shuffling re-labels units in place: every segment is an old segment of the same annotator")):
+         "category shuffling re-labels units in place: every segment is an old segment of the same annotator"),):
     contract(F + "CorpusShufflingTool." + _name,
              params={"self": CST(), "continuum": CONT()}, modifies=["continuum"], macros=VIEW_MACROS, trusted=True,
              requires=["RI(continuum)", "not same_obj(continuum, self._reference_continuum)", NONEMPTY_ALL],
@@ -223,7 +221,9 @@ for _v, _T, _isname, _nonempty in (
              requires=["RI(ref())", "Ann(ref())[ra()]", "Cnt(ref())[ra()] >= 1", "ref().bound_inf <= ref().bound_sup", "NumUnits(ref()) >= 1",
                        "Nkeys(ref()) >= 1", "Kseq(ref())[0] == ra()",
                        "forall([(l, Real)], implies(Cat(ref())[l], members(self._categories)[l]))",
-                       "self.magnitude >= 0", "self.SHIFT_FACTOR == 2", "self.SPLIT_FACTOR == 2.5", _nonempty],
+                       "self.magnitude >= 0", "self.SHIFT_FACTOR == 2", "self.SPLIT_FACTOR == 2.5", _nonempty,
+                       # false positives draw their labels with Continuum.category_weights, a sorted map keyed by the labels in use: None is no key
+                       "implies(false_pos, forall([(a, Real), (u, Unit)], implies(Us(ref())[a][u], u.haslab)))"],
              raises={"ValueError": {}, "AssertionError": {"iff": "include_ref and isname(ra())"}},
              ensures=[cl("fresh_obj(result) and disjoint_state(result, ref())", "C19 C14", name="independent"),
                       cl("forall([(a, Real)], Ann(result)[a] == (isname(a) or (include_ref and a == ra())))", "C19",
